@@ -3,10 +3,11 @@
 import json, os
 V = os.path.dirname(os.path.abspath(__file__))
 rows = []
-WAVES = '123456789'
+WAVES = ['1','2','3','4','5','6','7','8','9','10']
 for d in sorted(os.listdir(os.path.join(V, 'seeded'))):
     m = json.load(open(os.path.join(V, 'seeded', d, 'meta.json')))
-    wave = next(w for w in WAVES if ('wave ' + w) in m['origin'])
+    import re as _re
+    wave = _re.search(r'\(wave (\d+)', m['origin']).group(1)
     v = m['verdicts']
     main = v.get(m['breaks_property'], '')
     if 'superseded' in m:
@@ -18,7 +19,7 @@ total = len(rows); missed = sum(1 for r in rows if r[3])
 out = []
 out.append('''## 9. Seeded changes written by independent sub-agents
 
-Nine waves of fresh sub-agents, each given only the text of one property (from
+Ten waves of fresh sub-agents, each given only the text of one property (from
 wave 3 on additionally a one-line hint naming clauses of that same statement
 to aim at, different per wave; in waves 6 and 7 the whole property record and
 one assigned mechanism from its anchors to break, a different one per wave; in
@@ -26,7 +27,8 @@ wave 8 the property record and the instruction to hide the break in an
 uncommon corner of the quantified space - a size, an option value, a kind of
 value, a repeated call; in wave 9 the instruction that the break must need a
 fault landing at one particular point of an operation, or a multi-step history
-on one object) and a scratch worktree of `/repo`, produced one
+on one object; in wave 10, for eight properties, that it must only show on a
+second cycle of the same object) and a scratch worktree of `/repo`, produced one
 change each that breaks the property, compiles and passes the existing tests,
 together with a demonstration test. Each was kept only after `import_seed.sh`
 had confirmed in a fresh worktree: demonstration passes without the patch,
@@ -95,7 +97,9 @@ files):
   failing (C02, wave 7); no second `Unsubscribe` for the same channel (C08),
   no second `Synchronize()` on a set in use (C13), no Split output read by two
   tasks (C01) - wave 8; no `Subscribe` call whose own context ends in flight
-  (C08), no race-driver call whose own context ends mid-call (C13) - wave 9.
+  (C08), no race-driver call whose own context ends mid-call (C13) - wave 9;
+  nobody looking at a service's result before its last phase (C10, wave 10:
+  a timed waiter through `Service.Worker()`).
 * **oracle narrower than the statement**: only calls *invoked after* the last
   `Limit` execution were compared with its result (C15); under removals the
   iterator was only required not to panic and to return on Close/cancel, not
